@@ -47,12 +47,14 @@ type World struct {
 	TrueName func(path string) string
 	// MidProblems: failures of intermediate renders (MidRender).
 	MidProblems []string
+	// Expect: names that outputs produced with the File before the final render have shown for paths
+	Expect map[string]string
 }
 
 // StdNames are the real names of the standard-library paths used in alphabets.
 var StdNames = map[string]string{
 	"fmt": "fmt", "os": "os", "math/rand": "rand", "crypto/rand": "rand", "text/template": "template", "html/template": "template",
-	"go/types": "types", "math/rand/v2": "rand", "unsafe": "unsafe", "io": "io",
+	"go/types": "types", "encoding/json": "json", "encoding": "encoding", "math/rand/v2": "rand", "unsafe": "unsafe", "io": "io",
 }
 
 // DefaultTrueName: std paths have their real name, registered names come from the table, any
